@@ -6,7 +6,7 @@ import ast
 
 from ..cfg import CFG
 from ..astutil import inside
-from ..core import AnalysisError, const_value, walk_own
+from ..core import callee_is, AnalysisError, const_value, walk_own
 from ..events import container_events, root_name
 from ..defuse import DefUse, Terms, show, walk_term
 from ..defuse import key as tkey_
@@ -531,7 +531,7 @@ def _nesting(ctx):
     txt = ast.unparse(top.node)
     n_flat = txt.count("itertools.chain.from_iterable(")
     maps = [n for n in ast.walk(top.node) if isinstance(n, ast.Call)
-            and ast.unparse(n.func) == "map"]
+            and callee_is(ctx.prog, top, n, "map")]
     ok_t = n_flat == 2 and len(maps) == 1 and "from_records" in txt
     du = DefUse(prog, top)
     T = Terms(du)
@@ -550,7 +550,7 @@ def _nesting(ctx):
               "runs of spectra of hits are flattened exactly twice into "
               "one record per hit", f"{n_flat} flattenings", node=top.node)
     it = [n for n in ast.walk(top.node) if isinstance(n, ast.Call)
-          and ast.unparse(n.func) == "etree.iterparse"]
+          and callee_is(ctx.prog, top, n, "lxml.etree.iterparse", "etree.iterparse")]
     ok_i = len(it) == 1 and const_value({k.arg: k.value for k in
                                          it[0].keywords}.get("tag")) == \
         "{*}msms_run_summary"
@@ -561,7 +561,7 @@ def _nesting(ctx):
 
 def _read(ctx, f):
     cat = [n for n in ast.walk(f.node) if isinstance(n, ast.Call)
-           and ast.unparse(n.func) == "pd.concat"]
+           and callee_is(ctx.prog, f, n, "pandas.concat")]
     ok = bool(cat) and ast.unparse(cat[0].args[0]) == \
         "[_parse_pepxml(f, decoy_prefix) for f in pepxml_files]"
     ctx.check(ok, "C20c-files-concatenated", f,
